@@ -100,18 +100,19 @@ def run_tables(chk, histories, relevant, flavor="asan", label="tbl"):
 # ------------------------------------------------------------------------------------------
 # whole blocks as values (BlockValue.tla): items, the six manners of copying, generic reads
 # ------------------------------------------------------------------------------------------
-VINVS = ["C19_NoUB", "C19_ReadsOK", "C19_Cursors"]
+VINVS = ["C19_NoUB", "C19_ReadsOK", "C19_Cursors", "C19_Params"]
 ALL_HOWS = '{"cctor", "mctor", "cassign", "massign", "rctor", "rassign"}'
 
 
 def value_models(chk, tier):
     work = vlib.scratch("valmc")
     maxops = 5 if tier == "quick" else 6
-    consts = {"MaxOps": maxops, "Vals": "{0, 1}", "ModelKinds": '{"qr", "aec"}', "ModelHows": ALL_HOWS, "Emit": "FALSE"}
+    consts = {"MaxOps": maxops, "Vals": "{0, 1}", "ModelKinds": '{"qr", "aec"}', "ModelHows": ALL_HOWS, "ModelParams": "{0, 1}",
+              "Emit": "FALSE"}
     cfg = vlib.make_cfg(work / "MCBlockValue.cfg", spec="MCSpec", constants=dict(consts, VBug='"none"'), invariants=VINVS)
     res, verdict = vlib.model_check("MCBlockValue", cfg, workers=vlib.NCPU, timeout=2400, xmx="16g")
-    chk.add_model(f"MCBlockValue(MaxOps={maxops}, 3 slots, 2 values, 6 manners of copying)", res, verdict)
-    for bug in ("memberwise", "move_singular", "keep_cursor"):
+    chk.add_model(f"MCBlockValue(MaxOps={maxops}, 3 slots, 2 values, 2 parameter sets, 6 manners of copying)", res, verdict)
+    for bug in ("memberwise", "move_singular", "keep_cursor", "keep_params", "move_no_params"):
         cfg = vlib.make_cfg(work / f"MCBlockValue_{bug}.cfg", spec="MCSpec",
                             constants=dict(consts, MaxOps=5, VBug=f'"{bug}"'), invariants=VINVS)
         res, verdict = vlib.model_check("MCBlockValue", cfg, workers=4, timeout=600)
@@ -123,7 +124,7 @@ def generated_values(chk, maxops, limit=None):
     work = vlib.scratch("valgen")
     cfg = vlib.make_cfg(work / "Gen.cfg", spec="MCSpec",
                         constants={"MaxOps": maxops, "Vals": "{0, 1}", "ModelKinds": '{"qr", "aec"}', "ModelHows": ALL_HOWS,
-                                   "Emit": "TRUE", "VBug": '"none"'},
+                                   "ModelParams": "{0, 1}", "Emit": "TRUE", "VBug": '"none"'},
                         invariants=["EmitDone"])
     res = vlib.run_tlc("MCBlockValue", cfg, workers=8, timeout=1500, xmx="8g")
     if not vlib.tlc_ok(res):
@@ -141,30 +142,37 @@ def generated_values(chk, maxops, limit=None):
         hs = random.Random(chk.seed * 17 + 3).sample(hs, limit)
     # the same histories with malformed messages in the place of query/responses
     hs = hs + [{"ops": [dict(o, k="mm") if o.get("k") == "qr" else o for o in h["ops"]]} for h in hs[::3]]
+    # and on plain CdnsBlock objects (what an application fills and hands to write_block): no read API, the copies are
+    # observed through further additions and their serialisation
+    hs = hs + [{"cls": "block", "ops": [o for o in h["ops"] if o["op"] != "read"]} for h in hs[1::3]]
     chk.extra["generated_value_histories_total"] = chk.extra.get("generated_value_histories_total", 0) + total
     chk.extra["generated_value_histories_replayed"] = chk.extra.get("generated_value_histories_replayed", 0) + len(hs)
     return hs
 
 
 def random_value_histories(rng, n, length):
-    """Longer histories respecting the read contract: a block is read only while unmodified since it was obtained."""
+    """Longer histories respecting the read contract: a block is read only while unmodified since it was obtained.
+    Blocks are filled under one of three parameter sets (given at construction or by set_block_parameters while empty)."""
     hs = []
-    for _ in range(n):
+    for i in range(n):
+        cls = "block" if i % 3 == 2 else "blockread"
         alive = {1}
         armed = set()
         nq = {1: 0, 2: 0, 3: 0}
+        items = {1: 0, 2: 0, 3: 0}
         ops = []
         dom = rng.choice([3, 6, 40])
         for _ in range(length):
             x = rng.random()
             t = rng.choice(sorted(alive))
-            if x < 0.40:
+            if x < 0.36:
                 k = rng.choice(["qr", "qr", "aec", "aec", "mm"])
                 ops.append({"op": "item", "t": t, "k": k, "v": rng.randrange(dom)})
                 armed.discard(t)
+                items[t] += 1
                 if k == "qr":
                     nq[t] += 1
-            elif x < 0.62:
+            elif x < 0.58:
                 d = rng.choice([u for u in (1, 2, 3) if u != t])
                 ctor = d not in alive
                 hows = ["cctor", "mctor"] if ctor else ["cassign", "massign"]
@@ -174,23 +182,60 @@ def random_value_histories(rng, n, length):
                 alive.add(d)
                 armed.add(d)
                 nq[d] = nq[t]
-            elif x < 0.90 and armed:
+                items[d] = items[t]
+            elif x < 0.80 and armed and cls == "blockread":
                 t = rng.choice(sorted(armed))
                 k = rng.choice(["qr", "aec", "aec", "mm"])
                 for _ in range(rng.choice([1, 1, 2, 5])):
                     ops.append({"op": "read", "t": t, "k": k})
-            elif x < 0.94:
+            elif x < 0.85:
                 ops.append({"op": "clear", "t": t})
                 armed.discard(t)
                 nq[t] = 0
+                items[t] = 0
+            elif x < 0.91:
+                # set_block_parameters: mostly on an empty block (accepted), sometimes on a filled one (must be refused)
+                empty = [u for u in sorted(alive) if items[u] == 0]
+                t = rng.choice(empty) if empty and rng.random() < 0.85 else t
+                ops.append({"op": "setp", "t": t, "p": rng.randrange(3)})
+                armed.discard(t)
+            elif x < 0.94 and len(alive) < 3:
+                d = rng.choice([u for u in (1, 2, 3) if u not in alive])
+                ops.append({"op": "new", "t": d, "p": rng.randrange(3)})
+                alive.add(d)
+                nq[d] = items[d] = 0
             elif x < 0.97 and len(alive) > 1:
                 ops.append({"op": "destroy", "t": t})
                 alive.discard(t)
                 armed.discard(t)
-                nq[t] = 0
+                nq[t] = items[t] = 0
             else:
                 ops.append({"op": "ser", "t": t})
-        hs.append({"ops": ops})
+        hs.append({"cls": cls, "ops": ops})
+    return hs
+
+
+def param_family():
+    """Targeted: a block filled under set a is assigned / moved onto a block that was given set b (both are set #0 of
+    their files), then added to, read and serialised - for every manner of copying, both classes, every a != b."""
+    hs = []
+    for cls in ("blockread", "block"):
+        for a in (0, 1, 2):
+            for b in (0, 1, 2):
+                for how in ("cctor", "mctor", "cassign", "massign", "rctor", "rassign"):
+                    ctor = how in ("cctor", "mctor", "rctor")
+                    ops = [{"op": "setp", "t": 1, "p": a}]
+                    if not ctor:
+                        ops.append({"op": "new", "t": 2, "p": b})
+                    ops += [{"op": "item", "t": 1, "k": "qr", "v": 1}, {"op": "item", "t": 1, "k": "qr", "v": 4},
+                            {"op": "item", "t": 1, "k": "aec", "v": 3},
+                            {"op": "copy", "src": 1, "dst": 2, "how": how}]
+                    if cls == "blockread":
+                        ops += [{"op": "read", "t": 2, "k": "qr"}] * 3
+                    ops += [{"op": "ser", "t": 2}, {"op": "item", "t": 2, "k": "qr", "v": 7}, {"op": "item", "t": 2, "k": "mm", "v": 2},
+                            {"op": "ser", "t": 2}, {"op": "clear", "t": 2}, {"op": "item", "t": 2, "k": "qr", "v": 3},
+                            {"op": "item", "t": 2, "k": "qr", "v": 6}, {"op": "item", "t": 2, "k": "qr", "v": 9}]
+                    hs.append({"cls": cls, "ops": ops})
     return hs
 
 
